@@ -108,6 +108,12 @@ def sexpr(e) -> str:
     if isinstance(e, prim.If):
         return f"(if {sexpr(e.condition)} {sexpr(e.then)} {sexpr(e.else_)})"
     if isinstance(e, prim.NaN):
+        if e.data_type is not None and not np.issubdtype(e.data_type, np.inexact):
+            # a NaN node typed with an integer / bool type: there is no such value (`np.int32(nan)` raises,
+            # `np.bool_(nan)` is True).  Spelled as a call of an unknown function: its value is outside the
+            # exact domain (`undef`) like every NaN, but it is NOT a fill value or an operand the raiser
+            # accepts (the real raiser refuses it with UnknownIndexLambdaExpr).
+            return f"(call pytato.nan_as_{np.dtype(e.data_type).name})"
         return "(nan)"
     if isinstance(e, prim.Call):
         if not isinstance(e.function, prim.Variable):
